@@ -386,6 +386,16 @@ def analyse_shared(st, body):
         tail = body[close:body.find(";", close) if body.find(";", close) >= 0 else len(body)]
         tail_ok = re.match(r"^\s*(?:\.\s*(?:unwrap|expect|unwrap_or_else)\s*\((?:[^()]|\((?:[^()]|\([^()]*\))*\))*\))?\s*$", tail) is not None
         if not m or m.group(1) == "_" or not tail_ok:
+            # `S.lock()<unwrap>.method(args)` as the only use in its statement: the temporary guard lives to the end of the
+            # statement, so ONE method call on the protected value (the read-modify-write) happens under it
+            stmt_end = body.find(";", close)
+            stmt_end = stmt_end if stmt_end >= 0 else body.rfind("}")
+            one = re.match(r"^\s*(?:\.\s*(?:unwrap|expect|unwrap_or_else)\s*\((?:[^()]|\((?:[^()]|\([^()]*\))*\))*\))?"
+                           r"\s*\.\s*([A-Za-z_]\w*)\s*\((?:[^()]|\((?:[^()]|\([^()]*\))*\))*\)\s*(?:as\s+[A-Za-z_][\w:<>]*\s*)?$",
+                           body[close:stmt_end], re.S)
+            lead = statement_prefix(body, p)
+            if one and one.group(1) not in ("clone", "lock", "write", "read") and re.match(r"^\s*(?:let\s+(?:mut\s+)?[A-Za-z_]\w*\s*(?::[^=]+)?=\s*|return\s+)?$", lead):
+                return "Locked", "one temporary %s() guard around a single call of `%s`" % (want, one.group(1))
             return "Unknown", "the guard is not bound by a plain `let g = S.%s()...;` (a temporary guard ends with its statement)" % want
         g = m.group(1)
         rest = body[close:]
@@ -499,6 +509,25 @@ def classify_sources(treap_files, dep_crates, foreign_deps=(), default_features=
     st = shared[0]
     users = [f for f in T["fns"] + reached_fns if re.search(r"\b%s\b" % re.escape(st["name"]), f["body"])]
     in_inits = any(re.search(r"\b%s\b" % re.escape(st["name"]), x["init"]) for x in statics + tls)
+    # A guard ACCESSOR: a function whose whole body is `S.lock()` / `S.write()` followed by unwrap / expect /
+    # unwrap_or_else, i.e. it only hands out the guard.  Its callers then play the role of the users of the static:
+    # `let g = accessor();` is `let g = S.lock()...;`.
+    if len(users) == 1 and not in_inits and st["file"] in treap_files and (MUTEX_TY.match(st["type"].strip()) or RWLOCK_TY.match(st["type"].strip())):
+        want = "lock" if MUTEX_TY.match(st["type"].strip()) else "write"
+        acc = users[0]
+        if re.match(r"^\{\s*%s\s*\.\s*%s\s*\(\s*\)\s*(?:\.\s*(?:unwrap|expect|unwrap_or_else)\s*\((?:[^()]|\((?:[^()]|\([^()]*\))*\))*\)\s*)?\}$"
+                    % (re.escape(st["name"]), want), acc["body"].strip(), re.S):
+            callers = [f for f in T["fns"] + reached_fns if f is not acc and re.search(r"\b%s\s*\(" % re.escape(acc["name"]), f["body"])]
+            facts["guard_accessor"] = "%s (called by %s)" % (acc["name"], ", ".join(sorted(f["name"] for f in callers)) or "nobody")
+            if len(callers) == 1:
+                body = re.sub(r"\b%s\s*\(\s*\)" % re.escape(acc["name"]), "%s.%s()" % (st["name"], want), callers[0]["body"])
+                d, why = analyse_shared(st, body)
+                facts["generator"] = "%s through accessor %s in fn %s: %s" % (st["name"], acc["name"], callers[0]["name"], why)
+                if d == "Unknown":
+                    facts["unknown_because"] = [why]
+                return d, facts
+            facts["unknown_because"] = ["the guard accessor %s is called from %d functions: cannot see one access protocol" % (acc["name"], len(callers))]
+            return "Unknown", facts
     if len(users) != 1 or in_inits or st["file"] not in treap_files:
         facts["unknown_because"] = ["the shared static %s is named in %d functions (%s)%s: cannot see one access protocol" % (
             st["name"], len(users), ", ".join(sorted(f["name"] for f in users)), " and in an initialiser" if in_inits else "")]
